@@ -122,6 +122,7 @@ type Exec struct {
 	ghost      map[string]Value
 	concrete   map[int]int64
 	guard      *Term
+	mainLastRun int64
 	tables     map[*Value][]string
 	IfConverted int
 	views      map[string]*viewDef
